@@ -70,6 +70,9 @@ func (c c13Case) source() string {
 			fmt.Fprintf(&w, `"${w%d}"`, i)
 		case "canary":
 			w.WriteString("${canary:=1}")
+		case "count":
+			// a word that does not expand to the same thing twice
+			w.WriteString("$((c13n+=1))")
 		}
 	}
 	var s string
@@ -192,6 +195,7 @@ func c13Expect(c c13Case) c13Model {
 	// the operator word
 	var wsegs []ref.Seg
 	wtext := ""
+	nthCount := 0
 	for _, a := range c.Word {
 		t, q := a.Text, c.DQ
 		if strings.ContainsAny(c.Op, "%#") && c.Op != "#len" {
@@ -226,6 +230,9 @@ func c13Expect(c c13Case) c13Model {
 			q = true
 		case "canary":
 			t = "1"
+		case "count":
+			nthCount++
+			t = strconv.Itoa(nthCount)
 		}
 		wsegs = append(wsegs, ref.Seg{Text: t, Quoted: q})
 		wtext += t
@@ -434,7 +441,7 @@ func checkC13(c c13Case) (skip string, err error) {
 	if c.NoUnset {
 		env.Opts |= interp.NoUnset
 	}
-	for _, v := range []string{"p", "canary"} {
+	for _, v := range []string{"p", "canary", "c13n"} {
 		env.Unset(v)
 	}
 	if c.Set {
@@ -496,7 +503,22 @@ func checkC13(c c13Case) (skip string, err error) {
 			}
 		}
 	}
-	// the word is expanded only when it is used
+	// the word is expanded only when it is used, and then once
+	counts := 0
+	for _, a := range c.Word {
+		if a.Kind == "count" {
+			counts++
+		}
+	}
+	if counts > 0 && !strings.ContainsAny(c.Op, "%#") && gerr == nil {
+		want := ""
+		if m.WordUsed {
+			want = strconv.Itoa(counts)
+		}
+		if v, _ := env.Get("c13n"); v.Value != want {
+			return "", fmt.Errorf("%s: the word steps a counter %d time(s); afterwards the counter is %q, want %q (used=%v)", desc, counts, v.Value, want, m.WordUsed)
+		}
+	}
 	for _, a := range c.Word {
 		if a.Kind == "canary" && !strings.ContainsAny(c.Op, "%#") {
 			if _, set := env.Get("canary"); set != m.WordUsed {
@@ -578,6 +600,7 @@ func TestC13(t *testing.T) {
 		{{"lit", "a"}, {"canary", ""}, {"sq", " "}},
 		{{"bs", "a"}, {"bs", "}"}, {"bs", " "}},
 		{{"nestsq", "W Q"}, {"nestdq", "l"}},
+		{{"count", ""}},
 	}
 	patsets := [][]wAtom{
 		nil,
@@ -587,7 +610,8 @@ func TestC13(t *testing.T) {
 		set bool
 		val string
 	}
-	ifss := []ifsv{{false, ""}, {true, " \t\n"}, {true, ":"}, {true, ""}, {true, "é "}}
+	// (digits in IFS: the result of ${#p} and of $# is made of digits)
+	ifss := []ifsv{{false, ""}, {true, " \t\n"}, {true, ":"}, {true, ""}, {true, "é "}, {true, "5"}, {true, "13 "}}
 	idx := 0
 	for _, ps := range states {
 		for _, op := range c13Ops {
@@ -688,7 +712,7 @@ func TestC13(t *testing.T) {
 		if c.Op != "" && c.Op != "#len" {
 			k := rapid.IntRange(0, 3).Draw(rt, "natoms")
 			for i := 0; i < k; i++ {
-				kind := rapid.SampledFrom([]string{"lit", "sq", "var", "dqvar", "canary", "bs", "nestsq", "nestdq"}).Draw(rt, "atom")
+				kind := rapid.SampledFrom([]string{"lit", "sq", "var", "dqvar", "canary", "bs", "nestsq", "nestdq", "count"}).Draw(rt, "atom")
 				text := ""
 				switch kind {
 				case "lit":
